@@ -54,6 +54,7 @@ type JobDef struct {
 	MaxPaths int64
 	MaxSteps int64
 	NoNative bool // no native replay / translator validation possible for this job
+	Race     bool // native runs are built with the race detector; a report during a case is that case's verdict
 	// EngineOnly / NativeOnly are harness files used on one side only
 	// (bodyless declarations of engine accessors / their native bodies).
 	EngineOnly []string
@@ -300,7 +301,11 @@ func nativeRun(j JobDef, cases []replayCase) ([]replayResult, string, error) {
 	cp := filepath.Join(scratch, "cases.json")
 	os.WriteFile(cp, cb, 0o644)
 	outp := filepath.Join(scratch, "out.json")
-	cmd := exec.Command("go", "test", "-vet=off", "-count=1", "-timeout", "120s", "-overlay", ovp, "-run", "^TestVerifReplay$", j.Pkg)
+	targs := []string{"test", "-vet=off", "-count=1", "-timeout", "300s", "-overlay", ovp, "-run", "^TestVerifReplay$"}
+	if j.Race {
+		targs = append(targs, "-race")
+	}
+	cmd := exec.Command("go", append(targs, j.Pkg)...)
 	cmd.Dir = repoDir()
 	// glog of the test binary writes its files to the temp dir: keep them in
 	// the scratch directory, which is removed when the run is over
@@ -316,6 +321,23 @@ func nativeRun(j JobDef, cases []replayCase) ([]replayResult, string, error) {
 	var res []replayResult
 	if err := json.Unmarshal(raw, &res); err != nil {
 		return nil, string(out), err
+	}
+	if j.Race {
+		// race reports are printed while the racing case runs: attribute them
+		// by the case markers the native runner prints
+		cur := -1
+		for _, line := range strings.Split(string(out), "\n") {
+			switch {
+			case strings.HasPrefix(line, "VERIF-CASE-BEGIN "):
+				cur, _ = strconv.Atoi(strings.TrimPrefix(line, "VERIF-CASE-BEGIN "))
+			case strings.HasPrefix(line, "VERIF-CASE-END"):
+				cur = -1
+			case strings.Contains(line, "WARNING: DATA RACE") && cur >= 0 && cur < len(res):
+				if !strings.HasPrefix(res[cur].Status, "RACE") {
+					res[cur].Status = "RACE reported by the race detector"
+				}
+			}
+		}
 	}
 	return res, string(out), nil
 }
@@ -362,7 +384,7 @@ type pendingNative struct {
 
 // nativeKey identifies the set of files a native run is compiled from.
 func nativeKey(j JobDef) string {
-	k := j.Pkg + "|" + strings.Join(j.Harness, ",") + "|" + strings.Join(j.NativeOnly, ",")
+	k := j.Pkg + "|" + strings.Join(j.Harness, ",") + "|" + strings.Join(j.NativeOnly, ",") + fmt.Sprint(j.Race)
 	var gn []string
 	for n, src := range j.GenFiles {
 		gn = append(gn, fmt.Sprintf("%s:%x", n, hashBytes([]byte(src))))
@@ -745,7 +767,7 @@ func engineWhy(st *Stats) string {
 }
 
 func nativeViolates(r replayResult) bool {
-	if r.Status == "ASSERT" || strings.HasPrefix(r.Status, "PANIC") || strings.HasPrefix(r.Status, "HANG") {
+	if r.Status == "ASSERT" || strings.HasPrefix(r.Status, "PANIC") || strings.HasPrefix(r.Status, "HANG") || strings.HasPrefix(r.Status, "RACE") {
 		return true
 	}
 	for _, o := range r.Out {
